@@ -271,6 +271,74 @@ def rule_detached_counterparts_more(ctx):
         raise AnalysisError("_resolve_supply_file: VOLATILE branch not found")
 
 
+def rule_volatile_vs_detached_consumer(ctx):
+    """R-C08-9: 'a volatile output cannot be an input' when the consumer is the detached side.
+
+    R-C08-7 covers a detached volatile producer meeting a new consumer.  Here the consumer is
+    detached when the volatile output is declared: the declaration cannot raise (a detached edge is
+    a memory), so it must make sure the consumer cannot come back without being looked at, and the
+    recycle short-circuit must refuse a step whose input became volatile.
+    """
+    df = ctx.prog.func("workflow.Workflow._declare_file")
+    n_vol = 0
+    for tr, st in flow.paths_of(df):
+        created = [k for k, e in enumerate(tr) if e[0] == "call" and e[1] == "self.create"]
+        if not created:
+            continue
+        after = tr[created[0]:]
+        if ("file_state == FileState.VOLATILE", True) not in [(e[1], e[2]) for e in after if e[0] == "test"]:
+            continue
+        n_vol += 1
+        attached_test = [(e[1], e[2]) for e in after if e[0] == "test" and "sinks()" in e[1]]
+        if any(v for _, v in attached_test):
+            ctx.check(st == "raise", df.fq, "an attached consumer rejects the volatile declaration", "accepted", "raises")
+            continue
+        loops = [e for e in after if e[0] == "loop" and "sinks(" in str(e[1]) and "include_detached=True" in str(e[1])]
+        ok = bool(loops) and _loop_invalidates(loops[0][3])
+        ctx.check(ok, df.fq, "a volatile declaration invalidates its detached consumers and their detached creators", "a detached consumer of the path comes back unseen when its creator is recycled and skipped: an attached volatile file ends up with an attached consumer, which a build from scratch rejects in either order", "after_lost_product() for every sink, detached ones included", where=ctx.where_of(df))
+    if n_vol == 0:
+        raise AnalysisError("_declare_file: VOLATILE branch not found")
+    # Step.can_recycle refuses a full recycle when an input (initial or amended) is an attached volatile output now
+    cr = ctx.prog.func("step.Step.can_recycle")
+    guards = []
+    for n in ast.walk(cr.node):
+        if isinstance(n, ast.Return) and isinstance(n.value, ast.Constant) and n.value.value is False:
+            chain = _enclosing_conditions(cr.node, n)
+            guards.append(" && ".join(chain))
+    hit = [g for g in guards if "FileState.VOLATILE" in g and "inp_paths(" in g]
+    ctx.check(bool(hit), cr.fq, "a step with an attached volatile input is not fully recycled", "the recycle short-circuit of define_step brings the edge from a volatile output back without the check that a fresh definition gets (_resolve_supply_file): the plan is accepted in one order and rejected in the other", "return False on a VOLATILE input", where=ctx.where_of(cr))
+    if hit:
+        m = re.search(r"inp_paths\(([^)]*)\)", hit[0])
+        ctx.check(m is not None and "dynamic=False" not in m.group(1) and "dynamic=True" not in m.group(1), cr.fq, "amended inputs are looked at as well", f"only inp_paths({m.group(1) if m else '?'}) is examined", "inp_paths() without a dynamic filter")
+        ctx.check("states=" not in (m.group(1) if m else ""), cr.fq, "no state filter hides the volatile rows", "state filter present", "none")
+
+
+def _loop_invalidates(loop):
+    return isinstance(loop, (ast.For, ast.AsyncFor)) and any(callee_name(c) == "after_lost_product" for c in calls_in(loop))
+
+
+def _enclosing_conditions(root, node):
+    """Source text of the if-tests and for-iterables (and comprehension sources) that enclose ``node``."""
+    out = []
+
+    def walk(n, acc):
+        if n is node:
+            out.extend(acc)
+            return True
+        for child in ast.iter_child_nodes(n):
+            extra = []
+            if isinstance(n, ast.If) and child in n.body:
+                extra = [ast.unparse(n.test)]
+            elif isinstance(n, (ast.For, ast.AsyncFor)) and child in n.body:
+                extra = [ast.unparse(n.iter)]
+            if walk(child, acc + extra):
+                return True
+        return False
+
+    walk(root, [])
+    return out
+
+
 def rule_lost_claim_is_rechecked(ctx):
     """R-C08-5: when a new declaration takes a path from a detached owner, every plan that would declare the old owner
     again has to run again, so that the conflict is reported in that order too."""
@@ -285,6 +353,7 @@ RULES = [
     Rule("R-C08-2", "every conflict relation is guarded in both directions, before the mutation", rule_guard_pairs, min_instances=20),
     Rule("R-C08-3", "declare only after the claim check", rule_declare_after_check, min_instances=9),
     Rule("R-C08-8", "a new glob pattern is tested against declared products", rule_glob_vs_declared_products, min_instances=1),
+    Rule("R-C08-9", "volatile outputs against detached consumers and the recycle short-circuit", rule_volatile_vs_detached_consumer, min_instances=4),
     Rule("R-C08-7", "nested trees, undeclared inputs and volatile memories against detached declarations", rule_detached_counterparts_more, min_instances=3),
     Rule("R-C08-6", "declarations that conflict with a detached tree or pattern invalidate its owner", rule_detached_counterparts, min_instances=2),
     Rule("R-C08-5", "a claim taken from a detached owner is re-examined when the owner's plans run again", rule_lost_claim_is_rechecked, min_instances=4),
@@ -292,6 +361,10 @@ RULES = [
 ]
 
 MUTANTS = [
+    Mutant("volatile-ignores-detached-consumers", "workflow.py", in_function("Workflow._declare_file", replace_once("            for sink in file.sinks(Step, include_detached=True):\n                sink.after_lost_product()\n", "")), ("R-C08-9",)),
+    Mutant("volatile-invalidates-attached-only", "workflow.py", in_function("Workflow._declare_file", replace_once("            for sink in file.sinks(Step, include_detached=True):\n", "            for sink in file.sinks(Step):\n")), ("R-C08-9",)),
+    Mutant("recycle-keeps-volatile-input", "step.py", in_function("Step.can_recycle", replace_once("        if any(r.state == FileState.VOLATILE and not r.detached for r in self.inp_paths()):\n            return False\n", "")), ("R-C08-9",)),
+    Mutant("recycle-checks-initial-inputs-only", "step.py", in_function("Step.can_recycle", replace_once("not r.detached for r in self.inp_paths()):", "not r.detached for r in self.inp_paths(dynamic=False)):")), ("R-C08-9",)),
     Mutant("new-tree-ignores-detached-trees", "workflow.py", in_function("Workflow.register_static_tree", replace_once("        self._invalidate_detached_tree_creators(creator, path, nested=True)\n", "")), ("R-C08-7",)),
     Mutant("undeclared-under-detached-tree", "workflow.py", in_function("Workflow._resolve_supply_file", replace_once("            self._invalidate_detached_tree_creators(step, path)\n", "")), ("R-C08-7",)),
     Mutant("volatile-memory-rejects", "workflow.py", in_function("Workflow._resolve_supply_file", replace_once("                if not detached:\n                    raise GraphError(_volatile_input_message(path))\n", "                raise GraphError(_volatile_input_message(path))\n")), ("R-C08-7",)),
